@@ -20,6 +20,9 @@ Line protocol (stdin → stdout):
   wigner 2J 2M e:2λ e:2λ   the D-function of the node whose children are the two edges:
                         `D 2J 2M 2μ alpha=-phi… beta=theta… gamma=0`
   oppdecay              `oppdecay true|false`
+  chain id 2s sfx       the Wigner-D functions of the axis-angle alignment sum of final state `id`
+                        (`formulate_rotation_chain`), one `D 2s m=… mp=… alpha=… beta=… gamma=…` per line
+                        (sorted), then `end`
 -/
 namespace Ampverif.Model.C04Frames
 
@@ -181,6 +184,49 @@ def wignerD (t : Topo) (twoJ twoM : Int) (c1 : Int × Int) (c2 : Int × Int) : S
   let sfx := suffix t a.1
   s!"D {twoJ} {twoM} {a.2 - b.2} alpha=-phi{sfx} beta=theta{sfx} gamma=0"
 
+/-- `__GREEK_INDEX_NAMES` of `helicity/align/axisangle.py` -/
+def greek : List String := ["lambda", "mu", "nu", "xi", "alpha", "beta", "gamma"]
+
+/-- the helicity rotations of `formulate_helicity_rotation_chain`: walking from the rotated state
+up to the initial state, level k uses the angle symbols of the CURRENT state (of its sibling if
+the current state is the opposite-helicity one) -/
+def chainLevels (t : Topo) : Nat → Int → List (String × String)
+  | 0, _ => []
+  | fuel + 1, cur =>
+    match findEdge t cur with
+    | none => []
+    | some e =>
+      match e.orig with
+      | none => []
+      | some n =>
+        let nameId := if isOpposite t cur then (siblingOf t cur).getD cur else cur
+        let sfx := suffix t nameId
+        let rest := match t.find? (fun p => p.dest == some n) with
+          | none => []
+          | some p => chainLevels t fuel p.id
+        ("phi" ++ sfx, "theta" ++ sfx) :: rest
+
+/-- `formulate_rotation_chain(transition, rotated_state_id)`: every Wigner-D of the alignment sum
+of one final state (helicity rotations, plus the Wigner rotation when there are ≥ 2 of them);
+`sfx` is the helicity suffix `_{id}^{topology identifier}` (given by the caller). -/
+def rotationChain (t : Topo) (id twoS : Int) (sfx : String) : List String :=
+  let lv := chainLevels t (t.length + 1) id
+  let n := lv.length
+  let hel := "m" ++ toString id
+  let g (k : Nat) : String := greek.getD k "?"
+  if n == 1 then
+    lv.map (fun a => s!"D {twoS} m={hel} mp={g 0}{sfx} alpha={a.1} beta={a.2} gamma=0")
+  else
+    ((List.range n).zip lv).map (fun (k, a) =>
+        s!"D {twoS} m={g (k + 1)}{sfx} mp={g k}{sfx} alpha={a.1} beta={a.2} gamma=0")
+      ++ [s!"D {twoS} m={hel} mp={g n}{sfx} alpha=alpha{sfx} beta=beta{sfx} gamma=gamma{sfx}"]
+
+def insertStr (x : String) : List String → List String
+  | [] => [x]
+  | y :: ys => if x < y then x :: y :: ys else y :: insertStr x ys
+
+def sortStrs (l : List String) : List String := l.foldl (fun acc x => insertStr x acc) []
+
 /-! ### line protocol -/
 
 def parseOptNat (s : String) : Option Nat := if s == "-" then none else s.toNat?
@@ -215,6 +261,10 @@ def handle (t : Topo) (toks : List String) : Topo × List String :=
   | ["angles"] =>
     (t, (sortDict (helicityAngles t)).map (fun kv => "A " ++ kv.1 ++ "=" ++ kv.2) ++ ["end"])
   | ["oppdecay"] => (t, [s!"oppdecay {hasDecayingOpposite t}"])
+  | ["chain", id, twoS, sfx] =>
+    match id.toInt?, twoS.toInt? with
+    | some id, some twoS => (t, sortStrs (rotationChain t id twoS sfx) ++ ["end"])
+    | _, _ => (t, ["bad-chain"])
   | ["wigner", j, m, c1, c2] =>
     match j.toInt?, m.toInt?, parsePair c1, parsePair c2 with
     | some j, some m, some c1, some c2 => (t, [wignerD t j m c1 c2])
